@@ -117,6 +117,21 @@ PRINT 4
 
 
 ''', None),
+    'procs-first': ('''DECLARE SUB early (n%)
+DECLARE FUNCTION twice% (n%)
+SUB early (n%)
+  PRINT n%
+  n% = twice%(n%)
+END SUB
+FUNCTION twice% (n%)
+  twice% = n% * 2
+END FUNCTION
+x% = 1
+early x%
+PRINT x%
+early x%
+PRINT "m"
+''', None),
     'nested-calls': ('''DECLARE SUB outer (n%)
 DECLARE SUB inner (n%)
 outer 2
